@@ -131,7 +131,18 @@ def history(args):
             ind = Individual([float(i % 2) if args.get('shared_designs') else float(i), 0.5])
             ind.costs_signed = common.sym_costs(ctx, 'e%d' % i, m, 'bool')
             E.append(ind)
-        arch = Archive(dominance=dom)
+        if args.get('default_comparator'):
+            # every Archive() built without an explicit comparator shares ONE default EpsilonDominance instance (a
+            # default argument): another archive of the same process has used it before, on vectors with a different
+            # number of objectives (the swarm algorithms' leader archives do exactly that)
+            other = Archive()
+            for j in range(3):
+                o = Individual([100.0 + j, 0.5])
+                o.costs_signed = [float(j), float(2 - j)][:args['default_comparator']] + [True]
+                other.add(o)
+            arch = Archive()
+        else:
+            arch = Archive(dominance=dom)
         rets = feed(arch, E)
         cont = list(arch)
         ctx.output('kept', [c.id for c in cont])
@@ -240,6 +251,10 @@ def configs(tier):
     add_hist(3, 2, 'pareto', how='add', shared=True, split=32)
     add_hist(3, 1, 'eps', how='iadd', perm=True)
     add_hist(2, 2, 'pareto', how='append')
+    for k, m, first in ((2, 3, 2), (2, 1, 2), (3, 2, 1)):
+        out.append({'name': 'hist-k%d-m%d-default-comparator-used-before-with-%d-objectives' % (k, m, first), 'task': 'history',
+                    'args': {'k': k, 'm': m, 'cmp': 'eps', 'how': 'add', 'perm': False, 'default_comparator': first},
+                    'weight': 3 ** (k * 2) * 4, 'split': 32, 'engine': {'validate': 40}})
     for n in (1, 2, 3, 4):
         out.append({'name': 'truncate-n%d-larger' % n, 'task': 'truncate', 'args': {'n': n, 'larger': True, 'default_arg': n % 2 == 0},
                     'weight': 4 ** n, 'split': 32 if n >= 4 else None, 'engine': {'validate': 40}})
